@@ -134,6 +134,18 @@ CLAIMED["C16"] = dict(
          "delivers nothing (assumption on the sink); bounded-step termination (L2) is argued from the finite failure pattern, not "
          "yet a ranking theorem.")
 
+CLAIMED["C18"] = dict(
+    text="PARTIAL (protocol logic proved, bash/OS sampled). Lean 4 theorems: the shell's word splitting of the line built by "
+         "cmd_escape returns exactly the parameter list for EVERY list of strings (C18_quote_roundtrip, by induction over the exact "
+         "shlex.quote algorithm and the POSIX quoting rules it relies on); framing: a Command relays exactly its own lines and reads "
+         "its own status whatever follows on the recycled shell, for every history of reuse; the manager keeps each shell in at most "
+         "one of avail/inuse, once, for every get/return history. The Lean functions are compared with the real shlex.quote, real "
+         "bash, real concurrent Commands and the real LifetimeManager on every run. returncode defect fixed; two in-band framing "
+         "weaknesses are open known findings (with a Lean negation witness).",
+    design="§5 C18, §7", technique="Lean 4 proofs by induction on strings / token streams / op sequences + pure-function differential against shlex, bash and real Commands",
+    note="Trusted: Lean kernel + standard axioms; bash, pipes, process scheduling and the Process reader are not modelled; real runs "
+         "are wall-clock samples, not schedule-controlled. Parameters without NUL/newline.")
+
 PENDING = {}
 
 
